@@ -56,32 +56,43 @@ fn register_document(ctx: &mut LspContext, uri: &Url, source: &str) {
     ctx.perform_codegen();
 }
 
-fn publish_diagnostics(ctx: &LspContext) -> MosResult<()> {
+fn publish_diagnostics(ctx: &mut LspContext) -> MosResult<()> {
     log::trace!("Publish diagnostics");
 
     let mut result: HashMap<String, Vec<Diagnostic>> =
         to_diagnostics(&ctx.error).into_iter().into_group_map();
 
     // Grab all the files in the project
-    if let Some(tree) = ctx.tree.as_ref() {
-        let filenames = tree
+    let filenames = match ctx.tree.as_ref() {
+        Some(tree) => tree
             .code_map
             .files()
             .iter()
             .map(|file| file.name().to_string())
-            .collect_vec();
+            .collect_vec(),
+        None => vec![],
+    };
 
-        // Publish errors (or no errors!) for every file
-        for filename in filenames {
-            let diags = result.remove(filename.as_str()).unwrap_or_default();
-            let params = PublishDiagnosticsParams::new(
-                Url::from_file_path(filename).unwrap(),
-                diags,
-                None, // todo: handle document version
-            );
-            ctx.publish_notification::<PublishDiagnostics>(params)?;
-        }
+    // Files that were part of the project the last time, but are not any more, have no diagnostics now
+    let dropped = ctx
+        .published_files
+        .iter()
+        .filter(|f| !filenames.contains(f))
+        .cloned()
+        .sorted()
+        .collect_vec();
+
+    // Publish errors (or no errors!) for every file
+    for filename in filenames.iter().chain(dropped.iter()) {
+        let diags = result.remove(filename.as_str()).unwrap_or_default();
+        let params = PublishDiagnosticsParams::new(
+            Url::from_file_path(filename).unwrap(),
+            diags,
+            None, // todo: handle document version
+        );
+        ctx.publish_notification::<PublishDiagnostics>(params)?;
     }
+    ctx.published_files = filenames.into_iter().collect();
     Ok(())
 }
 
